@@ -29,6 +29,7 @@ func ruleC15(prog *Program, rep *Report) {
 	ruleEmbeddedNil(prog, rep)
 	ruleTableShape(prog, rep, "oj", "sen", "alt")
 	ruleDispatchArgs(prog, rep, "oj", "sen", "alt")
+	ruleCacheRead(prog, rep)
 	rulePkgTwins(prog, rep, "oj", "sen", 40) // sen's writer, field plans and accessors are copies of oj's
 }
 
@@ -448,4 +449,123 @@ func exclusiveBranches(root ast.Node, a, b ast.Node) bool {
 		return true
 	})
 	return res
+}
+
+// ruleCacheRead: K-cacheread. The plan caches come in pairs (plain / omit-empty) and the
+// builder files a plan in the one its omitEmpty argument selects (K-cache). A lookup
+// function that hands that same argument to the builder must read the cache the argument
+// selects: a function that reads only one map of the pair and passes a boolean parameter
+// on to a function that stores into both maps returns plans built under the other setting
+// (and never finds the entry of a self-referential type, so the builder recurses).
+func ruleCacheRead(prog *Program, rep *Report) {
+	rep.Rules = append(rep.Rules, "K-cacheread: a function that reads one of a pair of package-level plan caches and calls, with one of its own boolean parameters, a function that stores into both caches of the pair also reads the other cache (selected by that parameter): lookups and the builder agree on which cache holds a plan")
+	n := 0
+	for _, rel := range []string{"oj", "sen", "alt"} {
+		pk := prog.Pkg(rel)
+		if pk == nil {
+			continue
+		}
+		info := pk.TypesInfo
+		isCache := func(o types.Object) bool {
+			v, ok := o.(*types.Var)
+			if !ok || v.Parent() != pk.Types.Scope() {
+				return false
+			}
+			_, isMap := v.Type().Underlying().(*types.Map)
+			return isMap
+		}
+		// maps each function stores into / reads from
+		stores := map[types.Object]map[types.Object]bool{}
+		reads := map[types.Object]map[types.Object]bool{}
+		decls := map[types.Object]*ast.FuncDecl{}
+		for _, f := range pk.Syntax {
+			for _, d := range f.Decls {
+				fd, ok := d.(*ast.FuncDecl)
+				if !ok || fd.Body == nil {
+					continue
+				}
+				fo := info.Defs[fd.Name]
+				decls[fo] = fd
+				stores[fo], reads[fo] = map[types.Object]bool{}, map[types.Object]bool{}
+				lhs := map[ast.Node]bool{}
+				ast.Inspect(fd.Body, func(k ast.Node) bool {
+					if as, ok := k.(*ast.AssignStmt); ok {
+						for _, l := range as.Lhs {
+							if ix, ok := l.(*ast.IndexExpr); ok {
+								if o := useObj(info, ix.X); o != nil && isCache(o) {
+									stores[fo][o] = true
+									lhs[ix.X] = true
+								}
+							}
+						}
+					}
+					return true
+				})
+				ast.Inspect(fd.Body, func(k ast.Node) bool {
+					if id, ok := k.(*ast.Ident); ok && !lhs[id] {
+						if o := info.Uses[id]; o != nil && isCache(o) {
+							reads[fo][o] = true
+						}
+					}
+					return true
+				})
+			}
+		}
+		for fo, fd := range decls {
+			if len(reads[fo]) == 0 || fd.Type.Params == nil {
+				continue
+			}
+			boolParams := map[types.Object]bool{}
+			for _, fl := range fd.Type.Params.List {
+				for _, nm := range fl.Names {
+					if o := info.Defs[nm]; o != nil {
+						if b, ok := o.Type().Underlying().(*types.Basic); ok && b.Kind() == types.Bool {
+							boolParams[o] = true
+						}
+					}
+				}
+			}
+			ast.Inspect(fd.Body, func(k ast.Node) bool {
+				call, ok := k.(*ast.CallExpr)
+				if !ok {
+					return true
+				}
+				var callee types.Object
+				if id, ok := call.Fun.(*ast.Ident); ok {
+					callee = info.Uses[id]
+				}
+				if callee == nil || len(stores[callee]) < 2 {
+					return true
+				}
+				passes := false
+				for _, a := range call.Args {
+					if boolParams[useObj(info, a)] {
+						passes = true
+					}
+				}
+				if !passes {
+					return true
+				}
+				n++
+				var missing []string
+				for m := range stores[callee] {
+					if !reads[fo][m] {
+						missing = append(missing, m.Name())
+					}
+				}
+				sort.Strings(missing)
+				key := fmt.Sprintf("%s.%s:reads-one-cache", rel, funcKey(fd))
+				if len(missing) == 0 {
+					rep.Discharge("K-cacheread", key, prog.Pos(fd.Pos()), "reads every cache "+callee.Name()+" stores into")
+				} else {
+					rep.Violate(Finding{Rule: "K-cacheread", Key: key, Pos: prog.Pos(call.Pos()), Msg: fmt.Sprintf("%s hands a boolean parameter to %s, which files the plan in one of two caches by it, but never reads %s: it returns a plan built under the other setting when one exists, and does not find the entry of a type that is being built (a self-referential type recurses without end)", funcKey(fd), callee.Name(), strings.Join(missing, ", "))})
+				}
+				return true
+			})
+		}
+	}
+	rep.Eval(n)
+	if n < 4 {
+		rep.Errorf("K-cacheread examined %d lookup functions (floor 4): anchors did not resolve", n)
+	}
 }
